@@ -24,6 +24,7 @@ def run(ctx, rep):
         threading(prog, rep, tag)
         tables(prog, rep, tag)
         guards(prog, rep, tag)
+        sm_classification(prog, rep, tag)
     if ctx.tier == "thorough":
         from .. import witness
 
@@ -470,3 +471,24 @@ def norm_last(s):
     from ..core import last_seg, norm
 
     return last_seg(norm(s))
+
+
+def sm_classification(prog, rep, tag):
+    """Sibling agreement on what a sync manager is *for*: the SII usage-type byte may be 0 (Unknown) and
+    `SyncManager::usage_type()` then recovers the purpose from the control byte.  Every configuration path
+    (mailbox SMs, CoE PDOs, EEPROM PDOs) must classify through that accessor; a path comparing the raw field skips
+    such sync managers silently - no SM, no FMMU, an empty window - while its siblings still configure them."""
+    P = "C08.sm"
+    allowed = {"SyncManager::usage_type", "<SyncManager as PartialEq>::eq", "<SyncManager as Debug>::fmt", "<SyncManager as Clone>::clone", "<SyncManager as Format>::format"}
+    readers = {}
+    for b in prog.bodies:
+        if b.crate != "ethercrab" or b.d.get("is_test"):
+            continue
+        for a in q.field_accesses(b, "SyncManager", "usage_type"):
+            if a[2] in ("read", "addr"):
+                readers.setdefault(b.root_short, q.loc(b, a[0]))
+    for fn, loc in sorted(readers.items()):
+        rep.ob(P, "raw-usage-type-reader:%s%s" % (fn, tag), fn in allowed, "%s reads SyncManager.usage_type directly%s" % (fn, "" if fn in allowed else ": sync managers whose SII type byte is 0 are classified by SyncManager::usage_type() everywhere else"), loc=loc, how="inventory", nontrivial=fn not in allowed)
+    users = sorted({c.body.root_short for c in prog.calls_of("SyncManager::usage_type") if c.body.crate == "ethercrab" and not c.body.d.get("is_test")})
+    want = {"configuration::configure_mailbox_sms", "configuration::configure_pdos_coe", "configuration::configure_pdos_eeprom"}
+    rep.ob(P, "classified-through-accessor" + tag, want <= set(users), "the three configuration paths classify sync managers through SyncManager::usage_type(): %s" % users, how="inventory")
